@@ -20,6 +20,8 @@ pub enum HB {
     OvUpper,
     OvLower,
     OvPhysLower,
+    /// three layers: the file in the middle layer (served) and, with other bytes, in the bottom layer
+    Ov3Lower,
     Embedded,
 }
 
@@ -33,6 +35,7 @@ impl HB {
             HB::OvUpper => "Ov[Mem,Mem]/upper",
             HB::OvLower => "Ov[Mem,Mem]/lower-only",
             HB::OvPhysLower => "Ov[Phys,Phys]/lower-only",
+            HB::Ov3Lower => "Ov[Mem,Mem,Mem]/middle+bottom",
             HB::Embedded => "Embedded",
         }
     }
@@ -75,12 +78,17 @@ pub fn setup(b: HB, prior: Option<&[u8]>) -> Live {
         HB::OvUpper => (Cfg::Ov(vec![Cfg::Mem, Cfg::Mem]), 0),
         HB::OvLower => (Cfg::Ov(vec![Cfg::Mem, Cfg::Mem]), 1),
         HB::OvPhysLower => (Cfg::Ov(vec![Cfg::Phys, Cfg::Phys]), 1),
+        HB::Ov3Lower => (Cfg::Ov(vec![Cfg::Mem, Cfg::Mem, Cfg::Mem]), 1),
         HB::Embedded => unreachable!(),
     };
-    let init: Init = match prior {
+    let mut init: Init = match prior {
         Some(bytes) => vec![(base, vec![("/f".to_string(), Node::File(bytes.to_vec()))])],
         None => vec![],
     };
+    if b == HB::Ov3Lower && prior.is_some() {
+        // shadowed copy with other bytes and another length in the bottom layer
+        init.push((2, vec![("/f".to_string(), Node::File(b"BOTTOM-LAYER".to_vec()))]));
+    }
     let built = build(&cfg, Order::Asc, &init);
     let root = built.root.clone();
     Live {
@@ -496,6 +504,11 @@ pub fn writer_scripts(
                         }
                     }
                 };
+                // right after the open (once per backend / prior content / mode): an append handle has
+                // not changed anything yet, a create handle has truncated
+                if nscripts == 1 && !check_published(&model, "open", 0, &mut vio) {
+                    continue 'scripts;
+                }
                 for (i, s) in script.iter().enumerate() {
                     if b.is_phys() && matches!(s, WStep::Write(b) if b.is_empty()) && model.position() > model.get_ref().len() as u64 {
                         // a zero-length write past the end: Cursor<Vec<u8>> zero-fills up to the
@@ -606,7 +619,7 @@ pub fn lengths_and_buffers(
                 }
             }
             // file created by a write session through the stack (or pre-existing in the lower layer)
-            let via_lower = matches!(b, HB::OvLower | HB::OvPhysLower);
+            let via_lower = matches!(b, HB::OvLower | HB::OvPhysLower | HB::Ov3Lower);
             let live = setup(*b, if via_lower { Some(&content) } else { None });
             let mk = |tail: &str, what: String| Violation {
                 property: property.into(),
